@@ -5,7 +5,7 @@ From Coq Require Import String Ascii.
 From Coq Require Import List Arith Bool.
 Require Import TT.Model.Str TT.Model.TypeParse TT.Model.Render TT.Model.C05Emit.
 Require Import TT.Spec.C05Spec TT.Spec.C05Known TT.Spec.C18Spec TT.Spec.C18Known TT.Proofs.TypeParseProofs.
-Require Import TT.Proofs.C05Sweep.
+Require Import TT.Proofs.StrFacts TT.Proofs.C05Sweep.
 Import ListNotations.
 Local Open Scope string_scope.
 
@@ -54,3 +54,12 @@ Lemma result_comma_refuted :
   emit_type SField MNone table18 w18_result = Some (L "(PathBuf") /\
   c18_ok true table18 w18_result (L "(PathBuf") (L "(PathBuf") = false.
 Proof. vm_compute. repeat split; reflexivity. Qed.
+
+Lemma sweep18_premises_example :
+  exists t, In t spines18_2 /\ tts t = L "Option<Vec<Uuid>>" /\ kf_C18 SReturn MZod table18 t = false.
+Proof.
+  assert (H : existsb (fun x => str_eqb (tts x) (L "Option<Vec<Uuid>>") && negb (kf_C18 SReturn MZod table18 x)) spines18_2 = true)
+    by (vm_compute; reflexivity).
+  apply existsb_exists in H. destruct H as (x & Hin & Hp). apply andb_true_iff in Hp as [Hn Hk].
+  exists x. split; [exact Hin|]. split; [apply str_eqb_eq; exact Hn | apply negb_true_iff; exact Hk].
+Qed.
